@@ -91,3 +91,202 @@ Section PlainProofs.
     rewrite Forall_forall in Hg. rewrite (Hg g (nth_error_In _ _ Hn)). reflexivity.
   Qed.
 End PlainProofs.
+
+(* ------------------------------------------------------------------------------------ *)
+(* scenario steps: the per-gun template cache never changes what is rendered, the shared
+   definitions are never written *)
+
+Section ScenarioProofs.
+  Variables desc msg tmpl vars : Type.
+  Variable parse_t : gbytes -> option tmpl.
+  Variable exec_t : tmpl -> vars -> option gbytes.
+  Variable fits_text : desc -> gbytes -> option msg.
+
+  Notation cache := (cache tmpl).
+  Notation cache_find := (cache_find tmpl).
+  Notation render_one := (render_one tmpl vars parse_t exec_t).
+  Notation render_meta := (render_meta tmpl vars parse_t exec_t).
+  Notation render_spec := (render_spec tmpl vars parse_t exec_t).
+  Notation render_meta_spec := (render_meta_spec tmpl vars parse_t exec_t).
+  Notation apply_templater := (apply_templater tmpl vars parse_t exec_t).
+  Notation shoot_step := (shoot_step desc msg tmpl vars parse_t exec_t fits_text).
+  Notation spec_step := (spec_step desc msg tmpl vars parse_t exec_t fits_text).
+  Notation run_events := (run_events desc msg tmpl vars parse_t exec_t fits_text).
+  Notation sgun := (sgun desc tmpl).
+
+  Lemma tkind_eqb_eq a b : tkind_eqb a b = true -> a = b.
+  Proof.
+    destruct a as [|x], b as [|y]; cbn [tkind_eqb]; try discriminate; [reflexivity|].
+    intros H. apply gbytes_eqb_eq in H. subst. reflexivity.
+  Qed.
+
+  Lemma ckey_eqb_eq a b : ckey_eqb a b = true -> a = b.
+  Proof.
+    destruct a as [[s1 p1] k1], b as [[s2 p2] k2]. cbn [ckey_eqb].
+    intros H. apply andb_prop in H. destruct H as [H H3]. apply andb_prop in H. destruct H as [H1 H2].
+    apply gbytes_eqb_eq in H1. apply gbytes_eqb_eq in H2. apply tkind_eqb_eq in H3. subst. reflexivity.
+  Qed.
+
+  (* a Go map has one value per key *)
+  Definition meta_functional (md : gmeta) : Prop :=
+    forall k t1 t2, In (k, t1) md -> In (k, t2) md -> t1 = t2.
+
+  (* the step definitions in play: a call name denotes one definition (the provider's call
+     registry is keyed by name), and every shared metadata cell is a map *)
+  Definition steps_wf (h : heap) (S : list step) : Prop :=
+    (forall s1 s2, In s1 S -> In s2 S -> st_name s1 = st_name s2 -> s1 = s2) /\
+    (forall s, In s S -> meta_functional (heap_get h (st_cell s))).
+
+  (* the configured text behind a cache key *)
+  Definition configured (h : heap) (s : step) (kind : tkind) (text : gbytes) : Prop :=
+    match kind with
+    | KPayload => text = st_payload s
+    | KMeta k => In (k, text) (heap_get h (st_cell s))
+    end.
+
+  (* cache invariant: whatever is cached under (scenario, step name, kind) is the parse of the
+     configured text of the step with that name *)
+  Definition cache_ok (h : heap) (S : list step) (c : cache) : Prop :=
+    forall scn stp kind t, cache_find c (scn, stp, kind) = Some t ->
+      forall s text, In s S -> st_name s = stp -> configured h s kind text -> parse_t text = Some t.
+
+  Lemma cache_ok_nil h S : cache_ok h S [].
+  Proof. intros scn stp kind t H. discriminate. Qed.
+
+  Lemma configured_functional h S s kind t1 t2 :
+    steps_wf h S -> In s S -> configured h s kind t1 -> configured h s kind t2 -> t1 = t2.
+  Proof.
+    intros [_ Hm] Hs. destruct kind as [|k]; cbn [configured].
+    - intros -> ->. reflexivity.
+    - intros H1 H2. exact (Hm s Hs k t1 t2 H1 H2).
+  Qed.
+
+  Lemma render_one_ok h S c scn s kind text v :
+    steps_wf h S -> cache_ok h S c -> In s S -> configured h s kind text ->
+    exists c', render_one c (scn, st_name s, kind) text v = (c', render_spec text v) /\ cache_ok h S c'.
+  Proof.
+    intros Hwf Hc Hs Hconf. unfold GrpcCall.render_one, GrpcCall.get_template, GrpcCall.render_spec.
+    destruct (cache_find c (scn, st_name s, kind)) as [t|] eqn:Hf.
+    - exists c. rewrite (Hc _ _ _ _ Hf s text Hs eq_refl Hconf). split; [reflexivity|exact Hc].
+    - destruct (parse_t text) as [t|] eqn:Hp.
+      + exists (((scn, st_name s, kind), t) :: c). split; [reflexivity|].
+        intros scn' stp' kind' t' Hf' s' text' Hs' Hn' Hconf'.
+        cbn [GrpcCall.cache_find] in Hf'.
+        destruct (ckey_eqb (scn', stp', kind') (scn, st_name s, kind)) eqn:Hk.
+        * apply ckey_eqb_eq in Hk. injection Hk as -> -> ->. injection Hf' as <-.
+          destruct Hwf as [Hname Hm].
+          assert (s' = s) by (apply Hname; assumption). subst s'.
+          rewrite (configured_functional h S s kind text' text (conj Hname Hm) Hs Hconf' Hconf). exact Hp.
+        * exact (Hc _ _ _ _ Hf' s' text' Hs' Hn' Hconf').
+      + exists c. split; [reflexivity|exact Hc].
+  Qed.
+
+  Lemma render_meta_ok h S scn s v md :
+    steps_wf h S -> In s S -> incl md (heap_get h (st_cell s)) ->
+    forall c, cache_ok h S c ->
+    exists c', render_meta c scn (st_name s) md v = (c', render_meta_spec md v) /\ cache_ok h S c'.
+  Proof.
+    intros Hwf Hs. induction md as [|[k text] r IH]; intros Hincl c Hc; cbn [GrpcCall.render_meta GrpcCall.render_meta_spec].
+    - exists c. split; [reflexivity|exact Hc].
+    - assert (Hconf : configured h s (KMeta k) text) by (cbn; apply Hincl; left; reflexivity).
+      destruct (render_one_ok h S c scn s (KMeta k) text v Hwf Hc Hs Hconf) as [c1 [E1 Hc1]].
+      rewrite E1. destruct (render_spec text v) as [b|].
+      + destruct (IH (fun x Hx => Hincl x (or_intror Hx)) c1 Hc1) as [c2 [E2 Hc2]].
+        rewrite E2. exists c2. destruct (render_meta_spec r v); split; try reflexivity; exact Hc2.
+      + exists c1. split; [reflexivity|exact Hc1].
+  Qed.
+
+  Definition gun_ok (h : heap) (S : list step) (t : mtable desc) (timeout : Z) (g : sgun) : Prop :=
+    sg_services desc tmpl g = t /\ sg_timeout desc tmpl g = timeout /\ cache_ok h S (sg_cache desc tmpl g).
+
+  (* one step of one gun: the shared heap is returned untouched, the outcome is the
+     specification's (rendered from the configured texts), the gun stays well-formed *)
+  Lemma shoot_step_ok h S t timeout g scn s v :
+    steps_wf h S -> In s S -> gun_ok h S t timeout g ->
+    exists g', shoot_step h g scn s v = (h, g', spec_step t timeout h s v) /\ gun_ok h S t timeout g'.
+  Proof.
+    intros Hwf Hs [Ht [Hto Hc]]. unfold GrpcCall.shoot_step, GrpcCall.apply_templater, GrpcCall.spec_step.
+    destruct (render_one_ok h S (sg_cache desc tmpl g) scn s KPayload (st_payload s) v Hwf Hc Hs eq_refl) as [c1 [E1 Hc1]].
+    rewrite E1. destruct (render_spec (st_payload s) v) as [ptext|].
+    - destruct (render_meta_ok h S scn s v (heap_get h (st_cell s)) Hwf Hs (fun x Hx => Hx) c1 Hc1) as [c2 [E2 Hc2]].
+      rewrite E2. destruct (render_meta_spec (heap_get h (st_cell s)) v) as [md|].
+      + rewrite Ht, Hto. exists (mkSGun desc tmpl t timeout c2).
+        destruct (find_method t (st_call s)) as [d|]; [destruct (fits_text d ptext)|];
+          (split; [subst; reflexivity|repeat split; exact Hc2]).
+      + exists (mkSGun desc tmpl (sg_services desc tmpl g) (sg_timeout desc tmpl g) c2).
+        split; [reflexivity|]. repeat split; assumption.
+    - exists (mkSGun desc tmpl (sg_services desc tmpl g) (sg_timeout desc tmpl g) c1).
+      split; [reflexivity|]. repeat split; assumption.
+  Qed.
+
+  Lemma Forall_replace {A} (P : A -> Prop) (l : list A) i x :
+    Forall P l -> P x -> Forall P (firstn i l ++ x :: skipn (S i) l).
+  Proof.
+    intros Hl Hx. apply Forall_app. split.
+    - apply Forall_forall. intros y Hy. rewrite Forall_forall in Hl. apply Hl.
+      rewrite <- (firstn_skipn i l). apply in_or_app. left. exact Hy.
+    - constructor; [exact Hx|]. apply Forall_forall. intros y Hy. rewrite Forall_forall in Hl. apply Hl.
+      rewrite <- (firstn_skipn (S i) l). apply in_or_app. right. exact Hy.
+  Qed.
+
+  Lemma replace_length {A} (l : list A) i x :
+    i < length l -> length (firstn i l ++ x :: skipn (S i) l) = length l.
+  Proof.
+    intros H. rewrite app_length, firstn_length. cbn [length]. rewrite skipn_length. lia.
+  Qed.
+
+  (* every interleaving of the step executions of any number of instances, with any variables:
+     the shared definitions end as configured, and every step execution has exactly the outcome
+     obtained by rendering the CONFIGURED templates with that execution's variables *)
+  Lemma run_events_spec h S t timeout evs :
+    steps_wf h S ->
+    forall guns,
+    Forall (gun_ok h S t timeout) guns ->
+    Forall (fun e => In (ev_step vars e) S /\ ev_inst vars e < length guns) evs ->
+    exists guns',
+      run_events h guns evs =
+        (h, guns', map (fun e => spec_step t timeout h (ev_step vars e) (ev_vars vars e)) evs) /\
+      Forall (gun_ok h S t timeout) guns' /\ length guns' = length guns.
+  Proof.
+    intros Hwf. induction evs as [|e rest IH]; intros guns Hg He; cbn [GrpcCall.run_events map].
+    - exists guns. repeat split; auto.
+    - inversion He as [|x l [Hin Hi] Hrest]; subst.
+      destruct (nth_error guns (ev_inst vars e)) as [g|] eqn:Hn; [|apply nth_error_None in Hn; lia].
+      assert (Hgk : gun_ok h S t timeout g) by (rewrite Forall_forall in Hg; apply Hg; eapply nth_error_In; eauto).
+      destruct (shoot_step_ok h S t timeout g (ev_scn vars e) (ev_step vars e) (ev_vars vars e) Hwf Hin Hgk) as [g' [E Hg']].
+      rewrite E.
+      set (guns1 := firstn (ev_inst vars e) guns ++ g' :: skipn (Datatypes.S (ev_inst vars e)) guns).
+      assert (Hl1 : length guns1 = length guns) by (apply replace_length; exact Hi).
+      destruct (IH guns1) as [guns' [E' [Hok Hlen]]].
+      + apply Forall_replace; assumption.
+      + rewrite Hl1. exact Hrest.
+      + rewrite E'. exists guns'. repeat split; [exact Hok|congruence].
+  Qed.
+End ScenarioProofs.
+
+Section ScenarioShotProofs.
+  Variables desc msg tmpl vars : Type.
+  Variable parse_t : gbytes -> option tmpl.
+  Variable exec_t : tmpl -> vars -> option gbytes.
+  Variable fits_text : desc -> gbytes -> option msg.
+
+  (* a whole scenario shot: heap untouched, outcomes = the specified outcomes up to the first
+     step that is not sent *)
+  Lemma shoot_scenario_ok h SS t timeout scn sts :
+    steps_wf h SS -> Forall (fun sv => In (fst sv) SS) sts ->
+    forall g, gun_ok desc tmpl parse_t h SS t timeout g ->
+    exists g',
+      shoot_scenario desc msg tmpl vars parse_t exec_t fits_text h g scn sts =
+        (h, g', spec_scenario desc msg tmpl vars parse_t exec_t fits_text t timeout h sts) /\
+      gun_ok desc tmpl parse_t h SS t timeout g'.
+  Proof.
+    intros Hwf. induction sts as [|[st v] rest IH]; intros Hs g Hg; cbn [shoot_scenario spec_scenario].
+    - exists g. split; [reflexivity|exact Hg].
+    - inversion Hs as [|x l Hin Hrest]; subst. cbn [fst] in Hin.
+      destruct (shoot_step_ok desc msg tmpl vars parse_t exec_t fits_text h SS t timeout g scn st v Hwf Hin Hg) as [g1 [E Hg1]].
+      rewrite E.
+      destruct (spec_step desc msg tmpl vars parse_t exec_t fits_text t timeout h st v) eqn:Ho;
+        try (exists g1; split; [reflexivity|exact Hg1]).
+      destruct (IH Hrest g1 Hg1) as [g2 [E2 Hg2]]. rewrite E2. exists g2. split; [reflexivity|exact Hg2].
+  Qed.
+End ScenarioShotProofs.
